@@ -151,7 +151,13 @@ def _isbool(x):
     return isinstance(x, (bool, np.bool_))
 
 
-def _agree(got, exp):
+def _agree(got, exp, by_value=False):
+    if by_value:
+        # two cancelling signs in front of a truth value: 0/1 and False/True are the same value (see expr_ref)
+        try:
+            return close(float(got), float(exp), 1e-12, 0.0)
+        except (TypeError, ValueError):
+            return False
     if _isbool(got) != _isbool(exp):
         return False
     if _isbool(exp):
@@ -174,6 +180,7 @@ def check_valid(case, v):
     if isinstance(exp, complex) or (not _isbool(exp) and not isinstance(exp, (int, float, np.floating, np.integer))):
         return v.discard("domain-error")
     results = []
+    by_value = E.sign_pairs_on_boolean(t)
     for text in (tight, loose):
         try:
             with np.errstate(all="ignore"):
@@ -182,15 +189,17 @@ def check_valid(case, v):
             return v.fail("valid-raised", f"solve({text!r}) raised {e!r}; documented order gives {exp!r}")
         if r is None or not hasattr(r, "value"):
             return v.fail("no-value", f"solve({text!r}) returned {r!r}; expected {exp!r}")
-        if not _agree(r.value, exp):
+        if not _agree(r.value, exp, by_value):
             return v.fail("value", f"solve({text!r}) = {r.value!r}; documented order gives {exp!r}")
         results.append(r.value)
-    if not _agree(results[0], results[1]):
+    if not _agree(results[0], results[1], by_value):
         return v.fail("blanks", f"{tight!r} -> {results[0]!r} but {loose!r} -> {results[1]!r}")
     s = E.stats(t)
     steps = {st_ for _o, st_ in s["ops"]}
     v.nt((len(s["ops"]) >= 3 and len(steps) >= 2) or s["sign_pow"] or s["chained_cmp"] or s["fn_depth"] >= 2)
     v.label("valid")
+    if by_value:
+        v.label("cancelling_signs_on_truth_value(compared_by_value)")
     for name in steps:
         v.label("step_" + name)
     if s["sign_pow"]:
